@@ -50,7 +50,7 @@ impl Prop for C02 {
         true
     }
     fn case_time_limit(&self) -> u64 {
-        180
+        480
     }
     fn setup(&self, _tier: Tier) -> Result<(), String> {
         shim::install().map(|_| ())
